@@ -5,6 +5,11 @@ HERE = os.path.dirname(os.path.dirname(os.path.abspath(__file__)))
 
 # id -> (technique, level text, level note, design ref)
 CHECKS = {
+ "C08": (
+  "hypothesis-generated datasets driven through /venv/bin/mchap subprocesses under varied --cores / permuted / subset targets / injected failing locus (fault injection), plus generated in-process operation histories (model-based: first-seen result table)",
+  "Exploration: for each generated dataset assemble and call/call-pedigree are run as real subprocesses with 1..6 workers (more workers than loci included), repeated, with permuted and subset target files: record lines must be byte-identical to the single-core lines, each locus exactly once, headers equal apart from date/command line; with the alignments of one locus (any position) contradicting the variant reference every core count must exit non-zero, never print that locus and only print intact lines. In-process: generated histories interleaving locus calls of two programs, DenovoMCMC/CallingMCMC/PedigreeCallingMCMC fits and numpy/numba RNG consumption must return the first-seen result for every repeated operation.",
+  "OS scheduling is sampled, not controlled (a race needing a rare interleaving can be missed); subprocess timeouts are inconclusive; no liveness claim.",
+  "DESIGN.md §4 C08"),
  "C10": (
   "hypothesis-generated datasets with metamorphic relations across in-process runs: sample subsets, sample order permutations, pool files vs physically merged BAMs (union of alignments)",
   "Exploration: for each generated dataset assemble, call and call-exact are run with a fixed seed on all samples, a permutation, one sample alone, a pool assignment (all-in-one, partition, a sample in two pools) and on single-sample BAMs physically holding the union of each pool's alignments: call/call-exact sample columns must be identical strings, assemble columns must agree on all statistics and on the called haplotype sequences ('.' of the alone run may become named), ALT sets are order independent, pool columns equal the merged-BAM columns.",
